@@ -984,10 +984,127 @@ def stream_ext_other(r: Run, n, with_cirq):
 
 
 # =============================================================== driver
+def stream_blocks(r: Run, ncirc):
+    """Round 4 (seeded C17-4 was missed): NEIGHBOUR blocks.  The writer names a
+    CircuitGate definition after the block itself (`circuitgate_<hash>`), so two
+    different blocks in one circuit must get two names.  Every circuit here
+    holds 2-4 CircuitGate blocks of one width built from ONE base operation
+    list and differing in exactly one controlled way - the gate / location /
+    parameter-free gate at the first, a middle or the last position, one
+    operation appended (a block and its proper prefix), two operations
+    swapped, a difference inside a nested block - for base lengths on both
+    sides of every size the implementation treats specially (1, 3, 12, 99,
+    100, 101, 130, 205).  Oracles: those of `roundtrip` (operation-by-operation
+    equality after decode, unitary, Qiskit) plus: the text defines as many
+    gates as there are structurally different blocks."""
+    from bqskit.ir.circuit import Circuit
+    from bqskit.ir.gates import (CircuitGate, CNOTGate, CZGate, HGate, SGate, TGate,
+                                 XGate, ZGate, SwapGate)
+    ck, rng = r.ck, r.rng
+    oneq = [HGate(), SGate(), TGate(), XGate(), ZGate()]
+    twoq = [CNOTGate(), CZGate(), SwapGate()]
+    lengths = [1, 3, 12, 99, 100, 101, 130, 205]
+
+    def base_ops(k, m):
+        ops = []
+        for _ in range(m):
+            if k >= 2 and rng.random() < 0.35:
+                ops.append((rng.choice(twoq), tuple(rng.sample(range(k), 2))))
+            else:
+                ops.append((rng.choice(oneq), (rng.randrange(k),)))
+        return ops
+
+    def build(k, ops):
+        sub = Circuit(k)
+        for g, loc in ops:
+            if isinstance(g, tuple):        # nested block
+                inner = Circuit(len(loc))
+                for gg, ll in g:
+                    inner.append_gate(gg, ll)
+                sub.append_gate(CircuitGate(inner), loc)
+            else:
+                sub.append_gate(g, loc)
+        return sub
+
+    def variant(k, ops, how, pos):
+        ops = list(ops)
+        g, loc = ops[pos]
+        if how == 'gate':
+            pool = oneq if len(loc) == 1 else twoq
+            ops[pos] = (rng.choice([h for h in pool if h != g]), loc)
+        elif how == 'loc':
+            if len(loc) == 2:
+                ops[pos] = (g, (loc[1], loc[0])) if g != CZGate() and \
+                    g != SwapGate() else (CNOTGate(), (loc[1], loc[0]))
+            elif k >= 2:
+                ops[pos] = (g, ((loc[0] + 1) % k,))
+            else:
+                ops[pos] = (rng.choice([h for h in oneq if h != g]), loc)
+        elif how == 'append':
+            ops.append((rng.choice(oneq), (rng.randrange(k),)))
+        elif how == 'drop':
+            if len(ops) > 1:
+                del ops[pos]
+            else:
+                ops.append((XGate(), (0,)))
+        elif how == 'nested':
+            inner = [(rng.choice(oneq), (0,)), (rng.choice(oneq), (0,))]
+            ops[pos] = (tuple(inner), (loc[0],))
+        return ops
+
+    done = 0
+    for i in range(ncirc):
+        k = rng.choice([1, 2, 2, 3])
+        m = lengths[i % len(lengths)]
+        base = base_ops(k, m)
+        hows = ['gate', 'loc', 'append', 'drop', 'nested']
+        blocks = [base]
+        for _ in range(rng.randint(1, 3)):
+            how = hows[(i // len(lengths) + len(blocks)) % len(hows)]
+            pos = rng.choice([0, m // 2, m - 1])
+            blocks.append(variant(k, base, how, pos))
+        n = k + rng.randint(0, 2)
+        c = Circuit(n)
+        subs = []
+        for ops in blocks:
+            sub = build(k, ops)
+            subs.append(sub)
+            c.append_gate(CircuitGate(sub), rng.sample(range(n), k))
+        if rng.random() < 0.5:          # the first block once more
+            c.append_gate(CircuitGate(subs[0]), rng.sample(range(n), k))
+        label = f'blocks-{m}-{i}'
+        ok = roundtrip(r, 'lib-blocks', c, label, 'neighbour-blocks', want_print=False)
+        done += 1
+        ck.bump('lib_blocks_base_length', str(m))
+        # as many definitions as structurally different blocks (top level)
+        try:
+            text = c.to('qasm')
+        except Exception:
+            continue
+        distinct = []
+        for sub in subs:
+            if not any(sub == t for t in distinct):
+                distinct.append(sub)
+        names = {ln.split()[1].split('(')[0] for ln in text.splitlines()
+                 if ln.startswith('gate ')}
+        nested = sum(1 for ops in blocks for g, _ in ops if isinstance(g, tuple))
+        if len(names) < len(distinct):
+            ck.violation(
+                'C17-block-names-collide',
+                f'a circuit with {len(distinct)} different CircuitGate blocks (base '
+                f'length {m}, {k} qubits) is written with only {len(names)} gate '
+                f'definition name(s): different blocks share one OpenQASM gate name, so '
+                f'the text cannot mean the circuit',
+                {'stream': 'lib-blocks', 'label': label, 'text': text[:3000],
+                 'block_lengths': [len(o) for o in blocks], 'nested': nested})
+    ck.coverage['lib_blocks_circuits'] = done
+
+
 def run_all(r: Run, proved):
     ck = r.ck
     thorough = ck.tier == 'thorough'
     stream_lib(r, 1500 if thorough else 120)
+    stream_blocks(r, 400 if thorough else 40)
     stream_expr(r, 12000 if thorough else 700)
     stream_regress(r, 200 if thorough else 16)
     stream_body(r, thorough, 2000 if thorough else 60)
